@@ -361,6 +361,10 @@ template <class S, class T> static void xform (uint64_t seed, int n)
             if (mi[3] + mi[7] + mi[11] == 0) mi[3] = 1;
             box.min = Vec3<S> ((S) bm[0], (S) bm[1], (S) bm[2]); box.max = Vec3<S> ((S) bx[0], (S) bx[1], (S) bx[2]);
         }
+        // homogeneous weights of either sign: the whole last column negated (every corner keeps a weight of one sign),
+        // and last columns (0, 0, 0, w) with w other than one - not affine in the sense of affineTransform
+        if (isproj && (it / 8) % 3 == 1) { mi[3] = -mi[3]; mi[7] = -mi[7]; mi[11] = -mi[11]; mi[15] = -mi[15]; }
+        if (!isproj && kind < 4 && (it / 8) % 4 == 2) { static const int ws[4] = {-1, 2, -2, 3}; mi[15] = ws[(it / 32) % 4]; isproj = true; }
         for (int r = 0; r < 4; ++r) for (int c = 0; c < 4; ++c) m[r][c] = (T) mi[r * 4 + c];
         for (int form = 0; form < 4; ++form)
         {
